@@ -121,6 +121,77 @@ register(Contract(
                                'fact:rank', 'fact:rank-prefix', '-requires:branch', '-requires:keys', '-requires:top-fwd',
                                '-requires:top-arity', '-requires:top-exiting', '-requires:exiting'],
     },
-    properties=['C14', 'C04', 'C05'], runtime=False, slices=8,
-    fuzz_via=[SC + ':SCFG.insert_block', SC + ':SCFG.insert_block_and_control_blocks', SC + ':SCFG.join_tails_and_exits'],
+    properties=['C14', 'C04', 'C05'], gen='sync_exiting', slices=8,
+))
+
+# ---- update_exiting (transformations.py): rename `new_region_header` to `new_region_name` in the jump targets and back edges
+# of the exiting block of a region, recursively down its exiting chain (C04, C14); recursive: the recursive call is used
+# through this same contract (partial correctness)
+TR = 'numba_scfg.core.transformations'
+RB = 'region_block'
+UOE = 'graph_at_entry(%s.subregion)[%s.exiting]' % (RB, RB)
+UNE = 'graph_now(%s.subregion)[%s.exiting]' % (RB, RB)
+REN = '(new_region_name if %s[i] == new_region_header else %s[i])'
+# a stored block is the block it was, up to the renaming in its targets / back edges (and the value table following the targets)
+RENAMED_OR_SAME = ('all(len(s.graph[k]._jump_targets) == len(%s._jump_targets) and len(s.graph[k].backedges) == len(%s.backedges)'
+                   ' and all(s.graph[k]._jump_targets[i] == %s._jump_targets[i] or (%s._jump_targets[i] == new_region_header'
+                   ' and s.graph[k]._jump_targets[i] == new_region_name) for i in range(len(%s._jump_targets)))'
+                   ' and all(s.graph[k].backedges[i] == %s.backedges[i] or (%s.backedges[i] == new_region_header'
+                   ' and s.graph[k].backedges[i] == new_region_name) for i in range(len(%s.backedges))) %s)' % ((B,) * 8 + (EACH,)))
+# the facts are needed at and below the argument's sub-graph only (during the recursion the sub-graph above is incomplete:
+# its exiting block has been popped and is added back after the recursive call)
+DEEP = 'for s in all_subs() if sub_depth(s) >= sub_depth(%s.subregion) for k in %s' % (RB, G)
+UPRE = {
+    'wf': 'nesting_wf()',
+    'keys': 'all(%s.name == k %s)' % (B, DEEP),
+    'exiting': 'all(%s.exiting in graph_at_entry(%s.subregion) %s if isinstance(%s, RegionBlock))' % (B, B, DEEP, B),
+    'branch': 'all(table_ok(%s) and distinct(%s._jump_targets) %s if isinstance(%s, SyntheticBranch))' % (B, B, DEEP, B),
+}
+HAS_H = '(new_region_header in %s._jump_targets or new_region_header in %s.backedges)'
+# no stale header below a clean region: a stored region that does not name the header has an exiting block that does not
+# either (with the first-level clause: the whole exiting chain of the argument is free of the header afterwards)
+NO_STALE_PRE = ('all(implies(not %s, not %s) %s if isinstance(%s, RegionBlock))'
+                % (HAS_H % (B, B), HAS_H % (EX, EX), DEEP, B))
+NB = 's.graph[k]'
+NEX = '%s.subregion.graph[%s.exiting]' % (NB, NB)
+NO_STALE_POST = ('all(implies(not %s, not %s) for s in all_subs() if sub_depth(s) >= sub_depth(%s.subregion) for k in s.graph'
+                 ' if isinstance(%s, RegionBlock) and %s.exiting in %s.subregion.graph)'
+                 % (HAS_H % (NB, NB), HAS_H % (NEX, NEX), RB, NB, NB, NB))
+
+register(Contract(
+    qual=TR + ':update_exiting', params={'region_block': 'block', 'new_region_header': 'name', 'new_region_name': 'name'},
+    returns='block', heap=True, modifies=['$heap'], locals={'jt': 'list[name]', 'be': 'list[name]'},
+    requires=dict(UPRE, **{
+        'is-region': 'isinstance(%s, RegionBlock)' % RB,
+        'top-exiting': '%s.exiting in %s.subregion.graph' % (RB, RB),
+        # the new name is not yet a target of a stored branching block (its table can follow a renaming, not a merge)
+        'fresh-name': 'all(new_region_name not in %s._jump_targets %s if isinstance(%s, SyntheticBranch))' % (B, DEEP, B),
+        'distinct-names': 'new_region_name != new_region_header',
+        'no-stale': NO_STALE_PRE,
+    }),
+    ensures={
+        'result': 'same_value(result, %s)' % RB,
+        'no-stale': NO_STALE_POST,
+        # nothing above the argument's sub-graph is written
+        'shallower-same': 'all(s.graph == %s for s in all_subs() if sub_depth(s) < sub_depth(%s.subregion))' % (G, RB),
+        'level-1-clean': 'not %s' % (HAS_H % (UNE, UNE)),
+        'same-keys': 'all(set(s.graph) == set(%s) for s in all_subs())' % G,
+        'renamed-or-same': RENAMED_OR_SAME,
+        # the exiting block of the argument: every occurrence renamed, position by position
+        'level-1-targets': 'len(%s._jump_targets) == len(%s._jump_targets) and all(%s._jump_targets[i] == %s for i in range(len(%s._jump_targets)))'
+                           % (UNE, UOE, UNE, REN % (UOE + '._jump_targets', UOE + '._jump_targets'), UOE),
+        'level-1-backedges': 'len(%s.backedges) == len(%s.backedges) and all(%s.backedges[i] == %s for i in range(len(%s.backedges)))'
+                             % (UNE, UOE, UNE, REN % (UOE + '.backedges', UOE + '.backedges'), UOE),
+    },
+    loops={
+        'for idx, s in enumerate(jt)': LoopSpec(index='_i', inv={
+            'len': 'len(jt) == len(entry.jt)',
+            'done': 'all(jt[i] == %s for i in range(_i))' % (REN % ('entry.jt', 'entry.jt')),
+            'rest': 'all(jt[i] == entry.jt[i] for i in range(_i, len(jt)))'}),
+        'for idx, s in enumerate(be)': LoopSpec(index='_i', inv={
+            'len': 'len(be) == len(entry.be)',
+            'done': 'all(be[i] == %s for i in range(_i))' % (REN % ('entry.be', 'entry.be')),
+            'rest': 'all(be[i] == entry.be[i] for i in range(_i, len(be)))'}),
+    },
+    properties=['C04', 'C14', 'C02'], gen='update_exiting',
 ))
